@@ -397,6 +397,9 @@ class App:
         cmag = cev.mag(x, p0)
         ctx.require(np.all(lam >= 0), 'C04', 'kkt/lam_nonneg', lambda: 'returned multiplier %.3g < 0' % lam.min(), sig=sig)
         viol = -c - tol / k0 * (1 + 1e-6) - 1e3 * core.EPS * cmag
+        if np.any(viol > 0):
+            # is the constraint set itself inconsistent?  (phase-1: minimise the squared violation from several starts)
+            sig = dict(sig, feasible_set_empty=self.feasible_set_empty(x, p0))
         ctx.require(np.all(viol <= 0), 'C04', 'kkt/feasible',
                     lambda: 'constraint %d = %.6g violated beyond tol/kappa0 = %.3g' % (int(np.argmax(viol)), c[int(np.argmax(viol))], tol / k0[int(np.argmax(viol))]), sig=sig)
         ratio = float(np.max(np.maximum(kap / k0, 1.0)))
@@ -438,6 +441,29 @@ class App:
         d = float(np.linalg.norm(x - xs))
         ctx.require(d <= r_bound, 'C04', 'convex/minimiser',
                     lambda: 'returned point is %.6g from the unique constrained minimiser (bound %.6g from its own KKT residuals)' % (d, r_bound), sig=sig)
+
+    def feasible_set_empty(self, x, p0):
+        from scipy.optimize import minimize
+        cev, m = self.cev, self.m
+
+        def phi(y):
+            v = np.minimum(cev.c(y, p0)[:m], 0.0)
+            return float(v @ v)
+
+        def dphi(y):
+            cc = cev.c(y, p0)
+            v = np.minimum(cc, 0.0)
+            v[m:] = 0.0
+            return 2.0 * cev.J(y, p0).T @ v
+        best = np.inf
+        rs = np.random.Generator(np.random.PCG64(12345))
+        for y0 in [np.array(x, dtype=float), np.zeros(self.n)] + [rs.normal(size=self.n) * 3 for _ in range(6)]:
+            try:
+                r = minimize(phi, y0, jac=dphi, method='BFGS', options={'maxiter': 500, 'gtol': 1e-12})
+                best = min(best, float(r.fun))
+            except Exception:
+                pass
+        return bool(best > 1e-10)
 
     def reference(self, x, pnew):
         """Unique minimiser of the convex problem by active-set enumeration with dense Newton-KKT,
